@@ -107,25 +107,46 @@ fn unix_stream(e: &'static Engine, workers: usize, wk: char, rk: char, len: usiz
 /// *created*, used and dropped by `k2` participants at the same time. The kernel hands out the lowest free descriptor
 /// numbers, so the new sockets get the numbers that connection 1 has just closed: whatever the drop still does with its
 /// number (deregistering from epoll) must not hit the new sockets.
-fn unix_fd_reuse(e: &'static Engine, workers: usize, k1: char, k2: char) {
+/// `failed_connect`: instead of dropping a socket of an old connection, the `k1` participant makes a TCP connect to a dead
+/// port: the refused connect closes and deregisters its fresh descriptor on its error path
+fn unix_fd_reuse(e: &'static Engine, workers: usize, k1: char, k2: char, failed_connect: bool) {
     rt_init(workers);
     static CLOSED: AtomicBool = AtomicBool::new(false);
     static EARLY: AtomicBool = AtomicBool::new(false);
     let result: Arc<Mutex<Option<Vec<u8>>>> = Arc::new(Mutex::new(None));
-    let (a1, b1) = UnixStream::pair().unwrap();
-    // the lower number is free again: the new connection will get it and the number of b1
-    drop(a1);
+    let old = if failed_connect {
+        None
+    } else {
+        let (a1, b1) = UnixStream::pair().unwrap();
+        // the lower number is free again: the new connection will get it and the number of b1
+        drop(a1);
+        Some(b1)
+    };
+    // a port nobody listens on
+    let dead = {
+        let l = std::net::TcpListener::bind("127.0.0.1:0").unwrap();
+        l.local_addr().unwrap()
+    };
     let d2 = payload(5);
     e.begin();
     let mut hs = vec![];
-    hs.push(spawn_part(e, k1, move || {
-        drop(b1);
+    hs.push(spawn_part(e, k1, move || match old {
+        Some(b1) => drop(b1),
+        None => {
+            if TcpStream::connect(dead).is_ok() {
+                e.fail("connect_error", "a connect to a port without listener succeeded");
+            }
+        }
     }));
     // the second connection is born inside the window
     let d = d2.clone();
     let r = result.clone();
     hs.push(spawn_part(e, k2, move || {
         let (mut a2, mut b2) = UnixStream::pair().unwrap();
+        if failed_connect {
+            // the refused connect used the lowest free number: let the reader have it
+            std::mem::swap(&mut a2, &mut b2);
+        }
         let w = spawn_part(e, k2, move || {
             if let Err(err) = a2.write_all(&d) {
                 e.fail("write_error", &format!("write failed: {}", err));
@@ -467,10 +488,12 @@ pub fn build_c17(quick: bool) -> Vec<Scenario> {
         v.push(Scenario::new(p, "unix_stream", format!("unix.2conn.CC.len5.w{}", w), Arc::new(move |e| unix_stream(e, w, 'C', 'C', 5, 0, 4, false, 2))));
         v.push(Scenario::new(p, "tcp", format!("tcp.CC.len7.buf3.w{}", w), Arc::new(move |e| tcp_loopback(e, w, 7, 0, 3, false))));
         // a connection is dropped while another one is created: descriptor numbers are reused at once
-        v.push(Scenario::new(p, "unix_fd_reuse", format!("unix.fd_reuse.drop_T.new_CC.w{}", w), Arc::new(move |e| unix_fd_reuse(e, w, 'T', 'C'))));
+        v.push(Scenario::new(p, "unix_fd_reuse", format!("unix.fd_reuse.drop_T.new_CC.w{}", w), Arc::new(move |e| unix_fd_reuse(e, w, 'T', 'C', false))));
         if w == 2 {
-            v.push(Scenario::new(p, "unix_fd_reuse", "unix.fd_reuse.drop_C.new_CC.w2", Arc::new(move |e| unix_fd_reuse(e, 2, 'C', 'C'))));
-            v.push(Scenario::new(p, "unix_fd_reuse", "unix.fd_reuse.drop_C.new_TT.w2", Arc::new(move |e| unix_fd_reuse(e, 2, 'C', 'T'))));
+            v.push(Scenario::new(p, "unix_fd_reuse", "unix.fd_reuse.drop_C.new_CC.w2", Arc::new(move |e| unix_fd_reuse(e, 2, 'C', 'C', false))));
+            v.push(Scenario::new(p, "unix_fd_reuse", "unix.fd_reuse.drop_C.new_TT.w2", Arc::new(move |e| unix_fd_reuse(e, 2, 'C', 'T', false))));
+            v.push(Scenario::new(p, "unix_fd_reuse", "unix.fd_reuse.refused_connect_C.new_CC.w2", Arc::new(move |e| unix_fd_reuse(e, 2, 'C', 'C', true))));
+            v.push(Scenario::new(p, "unix_fd_reuse", "unix.fd_reuse.refused_connect_T.new_CC.w2", Arc::new(move |e| unix_fd_reuse(e, 2, 'T', 'C', true))));
         }
         // plain threads wait in std::thread::park, which may return spuriously
         v.push(Scenario::new(p, "thread_io_spurious_park", format!("unix.CT.len5.chunk1.buf64.spurious_park.w{}", w), Arc::new(move |e| unix_stream(e, w, 'C', 'T', 5, 1, 64, false, 1))).spurious());
